@@ -397,6 +397,9 @@ impl<P: RuntimeProvider + Send + Sync> SqliteZoneHandler<P> {
         //      for rrset in temp
         //           if (zone_rrset<rrset.name, rrset.type> != rrset)
         //                return (NXRRSET)
+        // temp<rr.name, rr.type> of the pseudocode: the RRs of the value dependent prerequisites
+        let mut value_dependent = Vec::<(LowerName, RecordType, Vec<&Record>)>::new();
+
         for require in pre_requisites {
             let required_name = LowerName::from(&require.name);
 
@@ -493,24 +496,30 @@ impl<P: RuntimeProvider + Send + Sync> SqliteZoneHandler<P> {
                 class if class == self.in_memory.class() =>
                 // zone     rrset    rr       RRset exists (value dependent)
                 {
-                    if !self
-                        .lookup(
-                            &required_name,
-                            require.record_type(),
-                            None,
-                            LookupOptions::default(),
-                        )
-                        .await
-                        .unwrap_or_default()
-                        .iter()
-                        .any(|rr| rr == require)
+                    let rtype = require.record_type();
+                    match value_dependent
+                        .iter_mut()
+                        .find(|(name, ty, _)| *name == required_name && *ty == rtype)
                     {
-                        return Err(ResponseCode::NXRRSet);
-                    } else {
-                        continue;
+                        Some((_, _, rrs)) if rrs.contains(&require) => {}
+                        Some((_, _, rrs)) => rrs.push(require),
+                        None => value_dependent.push((required_name, rtype, vec![require])),
                     }
                 }
                 _ => return Err(ResponseCode::FormErr),
+            }
+        }
+
+        // the zone's RRset has to be equal to the one given, not merely contain its RRs
+        for (name, rtype, rrs) in value_dependent {
+            let found = self
+                .lookup(&name, rtype, None, LookupOptions::default())
+                .await
+                .unwrap_or_default();
+            if found.iter().count() != rrs.len()
+                || !rrs.iter().all(|rr| found.iter().any(|f| f == *rr))
+            {
+                return Err(ResponseCode::NXRRSet);
             }
         }
 
